@@ -102,6 +102,18 @@ CHECKS = {
         text="TLC proves for every sub-rectangle and every position of the clipped region that all four corners and both levels lie inside the loaded arrays. The code is bound to those indices by probes whose node values identify each index (a wrapped negative index changes the integer; a positive overrun raises IndexError under numba's bounds checker), concentrated on the margins of the loaded rectangle, and by end-to-end runs with up to ~0.85 cell per step towards every open boundary with RK2/RK4 whose stage positions must be the clipped ones.",
         note="The memory access itself is observed only on executed scenarios. Known finding D15 (single-level grid) is reported as KNOWN-FINDING.",
         design="6 C17"),
+    "C14": dict(
+        level="model_checking",
+        technique="PairTrace (relations between paired runs: same / subset / shift, per-particle keys and bit-for-bit digests) decided by TLC on families of real runs, each run validated by LadimTrace",
+        text="For every family TLC requires: the repeated run reproduces records, files and particle variables exactly (digests of the raw bytes); with single release rows removed or rows reordered every remaining particle (matched by release row and occurrence) has the identical trajectory and age in every record up to renumbering; with every time of the set-up shifted by whole steps all records are identical at the shifted times. Deaths of whole release rows are scheduled right before output steps and a quarter of the families use vertical advection, the compositions in which a stale per-particle forcing cache shows.",
+        note="Diffusion off. In continuous mode rows are only removed from release times that keep another row (removing a whole file time changes the schedule by definition).",
+        design="6 C14"),
+    "C10": dict(
+        level="model_checking",
+        technique="Clock/Frames/Release specs written in simulation time (one scenario for both directions; MC_Clock MirrorLaw, MC_Frames reversed traversal); LadimTrace on reversed runs (clock, release times, output time coordinate); PairTrace mirror relation on reversed run vs forward run on mirrored, sign-flipped files",
+        text="Every reversed scenario is run reversed and forward on harness-generated mirrored files with negated velocity; TLC validates both traces against the composed specification (clock reads S, S-dt, ...; releases at their stated times; time coordinate) and decides the pairing: record k of the reversed run and record k of the mirrored run hold the same particles (pids) with bit-identical positions, at mirrored times.",
+        note="Mirrored inputs are generated by the harness (frame order reversed, t -> axis - t, fields negated).",
+        design="6 C10"),
 }
 
 NOT_YET = {}
